@@ -33,6 +33,23 @@ func init() {
 }
 
 func c17Rules(tier string) []Rule {
+	rules := c17RulesBase(tier)
+	// adding a pod always replaces the held reservations by the list CanAdd computed for it — also by the empty list
+	// (a pod that excludes every reserved offering must not leave the NodeClaim pinned to a reservation)
+	rules = append(rules, POST{ID: "C17.POST11", Fn: "(*sched.NodeClaim).Add", From: "", Must: []string{`^store \$0\.reservedOfferings = \$6$`}, Note: "every path through Add stores the new reservation list"},
+		POST{ID: "C17.POST11b", Fn: "(*sched.NodeClaim).Add", From: "", Must: []string{`^call \(\*sched\.NodeClaim\)\.releaseReservedOfferings\(\$0, \$0\.reservedOfferings, \$6\)$`}, Note: "…and releases what is no longer held"})
+	// the reservation manager sees every NodePool's full catalogue (the capacity of a shared reservation is the least any
+	// pool reports), and template counters are initialised before the first consumption is committed
+	rules = append(rules, core.Custom{ID: "C17.PROV9", Kind: "PROV", Run: func(w *core.World, id string) []core.Result {
+		return core.ArgProvenance(w, id, "sched.NewScheduler", `^call sched\.NewReservationManager\(`, 0, `^\$6$`, "NewReservationManager(instanceTypes): the unfiltered per-NodePool catalogue handed to NewScheduler")
+	}},
+		NOREACH{ID: "C17.NR1", Fn: "(*scheduling/dynamicresources.AllocationTracker).Commit", From: `^call \(\*scheduling/dynamicresources\.AllocationTracker\)\.commitTemplateCounters\(`,
+			Sink: `^call \(\*scheduling/dynamicresources\.AllocationTracker\)\.InitTemplateRemainingCounters\(`, Note: "counters are initialised before they are consumed"},
+		POST{ID: "C17.POST12", Fn: "(*scheduling/dynamicresources.AllocationTracker).Commit", From: "", Must: []string{`^call \(\*scheduling/dynamicresources\.AllocationTracker\)\.commitTemplateCounters\(\$0, \$1\.nodeClaimID, \$1\.templateCounterConsumptionByIT\)$`}})
+	return rules
+}
+
+func c17RulesBase(tier string) []Rule {
 	const (
 		rm      = "(*sched.ReservationManager)."
 		nc      = "(*sched.NodeClaim)."
